@@ -1,0 +1,196 @@
+// Copyright (c) 2026 10X Genomics, Inc. All rights reserved.
+
+//go:build verif
+
+package syntax
+
+import (
+	"encoding/json"
+	"fmt"
+	"strings"
+)
+
+// Targeted inputs for functions that walk a Go map and accumulate output
+// (errors, text, slices): each entry builds an input with many entries of which
+// several fail and returns the text the function produces.  The external
+// verification harness (property C10) calls each of them repeatedly and requires
+// byte-identical results.  This file is only compiled with `-tags verif`.
+
+const verifC10Src = `
+struct Pt(
+    int    x,
+    string label,
+)
+
+stage S(
+    in  map<int> m,
+    in  map<Pt>  pts,
+    out int      r,
+    src comp     "bin/s",
+)
+
+pipeline P(
+    in  map<int> m,
+    out int      r,
+)
+{
+    call S(
+        m   = self.m,
+        pts = {},
+    )
+
+    return (
+        r = S.r,
+    )
+}
+
+call P(
+    m = {},
+)
+`
+
+func verifC10Keys(n int) []string {
+	ks := make([]string, n)
+	for i := range ks {
+		ks[i] = fmt.Sprintf("k%02d", (i*7)%n)
+	}
+	return ks
+}
+
+func verifErrText(err error) string {
+	if err == nil {
+		return "<nil>"
+	}
+	return err.Error()
+}
+
+// VerifC10Provocations returns the provocations by map-range site function name.
+func VerifC10Provocations() (map[string]func() string, error) {
+	_, _, ast, err := ParseSourceBytes([]byte(verifC10Src), "verif_c10.mro", nil, false)
+	if err != nil {
+		return nil, err
+	}
+	lookup := &ast.TypeTable
+	keys := verifC10Keys(11)
+	intMap := func() *MapExp {
+		m := &MapExp{Kind: KindMap, Value: make(map[string]Exp, len(keys))}
+		for i, k := range keys {
+			m.Value[k] = &IntExp{Value: int64(i)}
+		}
+		return m
+	}
+	mapInt := lookup.Get(TypeId{Tname: KindInt, MapDim: 1})
+	mapPt := lookup.Get(TypeId{Tname: "Pt", MapDim: 1})
+	result := map[string]func() string{
+		// every entry fails to project a path through an int literal
+		"MapExp.BindingPath": func() string {
+			_, err := intMap().BindingPath("field", nil, lookup)
+			return verifErrText(err)
+		},
+		// every entry refers to an unknown pipeline input
+		"MapExp.resolveRefs": func() string {
+			m := &MapExp{Kind: KindMap, Value: make(map[string]Exp, len(keys))}
+			for i, k := range keys {
+				m.Value[k] = &RefExp{Kind: KindSelf, Id: fmt.Sprintf("missing_%d", i)}
+			}
+			_, err := m.resolveRefs(map[string]*ResolvedBinding{}, map[string]*ResolvedBinding{}, lookup)
+			return verifErrText(err)
+		},
+		// every struct entry lacks a field
+		"MapExp.filter": func() string {
+			m := &MapExp{Kind: KindMap, Value: make(map[string]Exp, len(keys))}
+			for i, k := range keys {
+				m.Value[k] = &MapExp{Kind: KindStruct, Value: map[string]Exp{
+					"x": &IntExp{Value: int64(i)}, "extra": &IntExp{Value: 1}}}
+			}
+			e, err := m.filter(mapPt, lookup)
+			return verifErrText(err) + " / " + fmt.Sprint(e.GoString())
+		},
+		// the visitor fails on every leaf: which failure is returned?
+		"walkExp": func() string {
+			m := &MapExp{Kind: KindStruct, Value: make(map[string]Exp, len(keys))}
+			for i, k := range keys {
+				m.Value[k] = &IntExp{Value: int64(i)}
+			}
+			err := walkExp(m, func(e Exp, path string) error {
+				if _, ok := e.(*IntExp); ok {
+					return fmt.Errorf("leaf %s rejected", path)
+				}
+				return nil
+			}, "")
+			return verifErrText(err)
+		},
+		// every value has the wrong JSON type
+		"TypedMapType.IsValidJson": func() string {
+			var sb strings.Builder
+			sb.WriteByte('{')
+			for i, k := range keys {
+				if i > 0 {
+					sb.WriteByte(',')
+				}
+				fmt.Fprintf(&sb, "%q:\"s%d\"", k, i)
+			}
+			sb.WriteByte('}')
+			var alarms strings.Builder
+			err := mapInt.IsValidJson(json.RawMessage(sb.String()), &alarms, lookup)
+			return verifErrText(err) + " / " + alarms.String()
+		},
+		// structs with an extra field: the filtered JSON is an OUTPUT
+		"TypedMapType.FilterJson": func() string {
+			var sb strings.Builder
+			sb.WriteByte('{')
+			for i, k := range keys {
+				if i > 0 {
+					sb.WriteByte(',')
+				}
+				fmt.Fprintf(&sb, "%q:{\"x\":%d,\"label\":\"l\",\"extra\":1}", k, i)
+			}
+			sb.WriteByte('}')
+			b, fatal, err := mapPt.FilterJson(json.RawMessage(sb.String()), lookup)
+			return string(b) + fmt.Sprint(" / ", fatal, " / ", verifErrText(err))
+		},
+		"TypedMapType.FilterJson(errors)": func() string {
+			var sb strings.Builder
+			sb.WriteByte('{')
+			for i, k := range keys {
+				if i > 0 {
+					sb.WriteByte(',')
+				}
+				fmt.Fprintf(&sb, "%q:\"bad%d\"", k, i)
+			}
+			sb.WriteByte('}')
+			b, fatal, err := mapPt.FilterJson(json.RawMessage(sb.String()), lookup)
+			return string(b) + fmt.Sprint(" / ", fatal, " / ", verifErrText(err))
+		},
+	}
+	// string literals carrying distinct source lines (error texts name the location)
+	strMap := func() *MapExp {
+		m := &MapExp{Kind: KindMap, Value: make(map[string]Exp, len(keys))}
+		for i, k := range keys {
+			m.Value[k] = &StringExp{valExp: valExp{Node: AstNode{Loc: SourceLoc{Line: 100 + i}}}, Value: k}
+		}
+		return m
+	}
+	call := ast.Callables.Table["P"].(*Pipeline).Calls[0]
+	result["invertSplit"] = func() string {
+		m := intMap()
+		_, e, err := invertSplit(&SplitExp{Value: m, Call: call, Source: m}, mapKeyIndex("k00"))
+		return verifErrText(err) + " / " + e.GoString()
+	}
+	result["wrapDisabled"] = func() string {
+		m := strMap()
+		e, err := wrapDisabled(&SplitExp{Value: m, Call: call, Source: m}, &IntExp{Value: 1}, lookup)
+		return verifErrText(err) + " / " + e.GoString()
+	}
+	result["DisabledExp.makeDisabledExp"] = func() string {
+		m := strMap()
+		d := &DisabledExp{Disabled: &BoolExp{Value: false}, Value: &IntExp{Value: 1}}
+		e, err := d.makeDisabledExp(&SplitExp{Value: m, Call: call, Source: m}, &IntExp{Value: 1})
+		return verifErrText(err) + " / " + e.GoString()
+	}
+	result["resolveDisableMap"] = func() string {
+		e, err := resolveDisableMap(&IntExp{Value: 1}, strMap().Value, nil)
+		return verifErrText(err) + " / " + fmt.Sprint(e)
+	}
+	return result, nil
+}
